@@ -270,6 +270,10 @@ def run(ctx):
 
 
 def replay(ctx, obj):
+    _r = obj.get('replay', obj)
+    if isinstance(_r, dict) and _r.get('scenario'):
+        print('this scenario (%s) is rebuilt by the check itself: VERIF_SEED=%s ./check C07' % (_r['scenario'], obj.get('seed')))
+        return 0
     evorig.setup()
     r = obj.get('replay', obj)
     case = {'spec0': r['spec0'], 'muts': r['mutations']}
